@@ -37,7 +37,8 @@ type Program struct {
 	chaG     *callgraph.Graph
 	GOARCH   string
 
-	succCache map[*ssa.Function][]*ssa.Function
+	succCache  map[*ssa.Function][]*ssa.Function
+	succCacheD map[*ssa.Function][]*ssa.Function
 
 	NFiles, NFuncs, NInstr int
 }
